@@ -1381,6 +1381,14 @@ class Interp:
 
     def contains(self, cont, x):
         cont = self.force(cont)
+        if isinstance(cont, (VDict, VSet, VMap)) or getattr(cont, "hashed", False):
+            # membership in a hashed container hashes the probe first
+            xx = self.force(x)
+            if isinstance(xx, VJson):
+                xx = self.json_narrow(xx)
+                x = xx
+            if isinstance(xx, (VSeq, VList, VJsonDict, VDict, VSet, VMap)):
+                self.raise_("TypeError", VStr("unhashable type"))
         if isinstance(cont, (VList, VTuple)):
             return z3.Or([self.eq(x, y) for y in cont.items] + [z3.BoolVal(False)])
         if isinstance(cont, VDict):
